@@ -13,7 +13,7 @@ if not any(a.startswith('-n') for a in args):
     cmd += ['-n', '14']
 cmd += args
 env = dict(os.environ); env.pop('BREEZY_VERIF', None)
-r = subprocess.run(cmd, cwd='/repo', env=env, stdout=subprocess.PIPE, stderr=subprocess.STDOUT, text=True)
+r = subprocess.run(cmd, cwd=os.environ.get('BASECMP_CWD', '/repo'), env=env, stdout=subprocess.PIPE, stderr=subprocess.STDOUT, text=True)
 print(r.stdout[-600:])
 passed, failed, seen = set(), set(), set()
 for tc in ET.parse(out).getroot().iter('testcase'):
